@@ -52,7 +52,31 @@ func (fc *FuncCtx) resolveCallee(com *ssa.CallCommon, fr *Frame, st *State) (str
 			}
 		}
 	}
+	if n := dynCalleeName(com.Value); n != "" {
+		return "dynamic:" + n, nil, nil
+	}
 	return "dynamic:" + com.Value.Name(), nil, nil
+}
+
+// dynCalleeName gives the source-level name of the function-typed parameter, local or captured variable a dynamic
+// call goes through ("" if the callee expression is anything else).
+func dynCalleeName(x ssa.Value) string {
+	switch t := x.(type) {
+	case *ssa.Parameter:
+		return t.Name()
+	case *ssa.FreeVar:
+		return t.Name()
+	case *ssa.UnOp:
+		if t.Op == token.MUL {
+			switch a := t.X.(type) {
+			case *ssa.Alloc:
+				return a.Comment
+			case *ssa.FreeVar:
+				return a.Name()
+			}
+		}
+	}
+	return ""
 }
 
 // frames of enclosing functions are needed to evaluate closure bindings statically; bindings that are
@@ -412,6 +436,23 @@ func (fc *FuncCtx) opaqueCall(fr *Frame, st *State, com *ssa.CallCommon, key str
 		v.opaqueCalls[fc.key] = m
 	}
 	m[key]++
+	// call-site clauses of the caller's contract also apply to calls without a contract: static callees by their short
+	// name, calls through a function-typed parameter / local / captured variable by the name of that variable
+	if fc.spec != nil && len(fc.spec.CallReq) > 0 {
+		cshort := shortFuncName(key)
+		if strings.HasPrefix(key, "dynamic:") {
+			cshort = strings.TrimPrefix(key, "dynamic:")
+		}
+		fc.callCount[cshort]++
+		env := fc.env(st, fc.entry)
+		names, tys := fc.calleeParams(com, nil)
+		for i := range args {
+			if i < len(names) && args[i].T != nil {
+				env.vars[names[i]] = SV{T: args[i].T, GoT: tys[i]}
+			}
+		}
+		fc.callSiteClauses(st, env, cshort, fc.callCount[cshort], ins, nil)
+	}
 	for w := range v.worlds {
 		st.globals[w] = c.Fresh("havoc_"+w, v.worlds[w])
 	}
@@ -540,28 +581,7 @@ func (fc *FuncCtx) contractCall(fr *Frame, st *State, com *ssa.CallCommon, key s
 		}
 		st.assume(c, t)
 	}
-	// call-site clauses of the caller's own contract
-	for _, pat := range patKeys {
-		cls := fc.spec.CallReq[pat]
-		if !matchCallPattern(pat, cshort, ord) {
-			continue
-		}
-		for i, cl := range cls {
-			if cl.Where == "use" {
-				continue
-			}
-			t, err := env.EvalBool(cl.E)
-			if err != nil {
-				panic(specError{fmt.Sprintf("call clause %s (line %d): %v", pat, cl.Line, err)})
-			}
-			label := cl.Label
-			if label == "" {
-				label = fmt.Sprint(i + 1)
-			}
-			v.addObligation(&Obligation{Name: fmt.Sprintf("%s#call%d[%s].requires.%s", fc.short, ord, cshort, label), Kind: "call", Func: fc.key,
-				Pos: v.fset.Position(ins.Pos()).String(), Assume: withHints(st.pc), Goal: t, Expect: "unsat", Src: cl.Src})
-		}
-	}
+	fc.callSiteClauses(st, env, cshort, ord, ins, hints)
 	res := com.Signature().Results()
 	// pure / defined functions
 	if pf, ok := v.pureByKey[key]; ok && res.Len() == 1 && (spec.Pure || spec.Def != nil) && len(spec.Modifies) == 0 {
@@ -573,10 +593,20 @@ func (fc *FuncCtx) contractCall(fr *Frame, st *State, com *ssa.CallCommon, key s
 			b(st)
 		}
 		val := Val{T: t, GoT: res.At(0).Type()}
+		v.assumeTyped(st, t, res.At(0).Type(), nil) // range / non-negative length of the result, as for non-pure calls
 		fc.assumeEnsures(st, st.clone(), spec, key, env.vars, []Val{val}, res)
 		return val
 	}
 	pre := st.clone()
+	// a callee whose postconditions say fresh(x) allocates: the allocation counter moves forward by an unknown amount
+	// (otherwise "x >= $alloc_before && x < $alloc_after" is contradictory at the call site and everything after the
+	// call is proved vacuously); `fresh` result[0] of lib specs keeps the precise counter
+	if ensuresMentionFresh(spec) {
+		oldAlloc := v.getGlobal(st, "$alloc")
+		na := c.Fresh("alloc", SInt)
+		st.globals["$alloc"] = na
+		st.assume(c, c.Cmp(">=", na, oldAlloc))
+	}
 	// havoc
 	var freshConsts []*Term
 	var touched []string
@@ -700,6 +730,43 @@ func (fc *FuncCtx) contractCall(fr *Frame, st *State, com *ssa.CallCommon, key s
 	return Val{Tuple: results}
 }
 
+// callSiteClauses emits the obligations of the caller's `call PATTERN requires` clauses for one call.
+func (fc *FuncCtx) callSiteClauses(st *State, env *Env, cshort string, ord int, ins ssa.Instruction, hints []*Term) {
+	v := fc.v
+	var patKeys []string
+	for pat := range fc.spec.CallReq {
+		patKeys = append(patKeys, pat)
+	}
+	sortStrings(patKeys)
+	pc := st.pc
+	if len(hints) > 0 {
+		pc = append(append([]*Term{}, st.pc...), hints...)
+	}
+	for _, pat := range patKeys {
+		cls := fc.spec.CallReq[pat]
+		if !matchCallPattern(pat, cshort, ord) {
+			continue
+		}
+		for i, cl := range cls {
+			if cl.Where == "use" {
+				continue
+			}
+			t, err := env.EvalBool(cl.E)
+			if err != nil {
+				panic(specError{fmt.Sprintf("call clause %s (line %d): %v", pat, cl.Line, err)})
+			}
+			label := cl.Label
+			if label == "" {
+				label = fmt.Sprint(i + 1)
+			}
+			v.addObligation(&Obligation{Name: fmt.Sprintf("%s#call%d[%s].requires.%s", fc.short, ord, cshort, label), Kind: "call", Func: fc.key,
+				Pos: v.fset.Position(ins.Pos()).String(), Assume: pc, Goal: t, Expect: "unsat", Src: cl.Src})
+			// a call-site clause is also a cut: once proved at this point it may be used afterwards
+			st.assume(v.c, t)
+		}
+	}
+}
+
 func (fc *FuncCtx) assumeEnsures(st, pre *State, spec *FuncSpec, key string, vars map[string]SV, results []Val, res *types.Tuple) {
 	v := fc.v
 	if len(spec.Ensures) == 0 {
@@ -811,6 +878,31 @@ func (fc *FuncCtx) assumeEnsuresSubst(st, pre *State, spec *FuncSpec, key string
 		st.assume(c, c.Subst(t, sub))
 	}
 	return sub
+}
+
+// ensuresMentionFresh: some postcondition of the contract uses fresh(...).
+func ensuresMentionFresh(spec *FuncSpec) bool {
+	var has func(e *Expr) bool
+	has = func(e *Expr) bool {
+		if e == nil {
+			return false
+		}
+		if e.Kind == "call" && e.Name == "fresh" {
+			return true
+		}
+		for _, a := range e.Args {
+			if has(a) {
+				return true
+			}
+		}
+		return false
+	}
+	for _, cl := range spec.Ensures {
+		if has(cl.E) || strings.Contains(cl.Src, "fresh(") {
+			return true
+		}
+	}
+	return false
 }
 
 func occurs(x, in *Term) bool {
